@@ -302,8 +302,18 @@ pub fn run_schedule(sched: Schedule) -> Vec<Obs> {
 }
 
 pub fn child_main() -> i32 {
+    // normally the plan arrives on stdin and the observations leave on stdout; when the process runs on a
+    // terminal (all three standard streams are a tty) both travel through files named on the command line
+    let argv: Vec<String> = std::env::args().collect();
+    let file_arg = |k: &str| argv.iter().position(|a| a == k).and_then(|i| argv.get(i + 1)).cloned();
+    let (inf, outf) = (file_arg("--plan-file"), file_arg("--obs-file"));
     let mut s = String::new();
-    std::io::stdin().read_to_string(&mut s).expect("stdin");
+    match &inf {
+        Some(p) => s = std::fs::read_to_string(p).expect("plan file"),
+        None => {
+            std::io::stdin().read_to_string(&mut s).expect("stdin");
+        }
+    }
     let sched: Schedule = match serde_json::from_str(&s) {
         Ok(s) => s,
         Err(e) => {
@@ -312,10 +322,18 @@ pub fn child_main() -> i32 {
         }
     };
     let obs = run_schedule(sched);
-    let stdout = std::io::stdout();
-    let mut lock = stdout.lock();
+    let mut text = String::new();
     for o in &obs {
-        writeln!(lock, "{}", serde_json::to_string(o).unwrap()).unwrap();
+        text.push_str(&serde_json::to_string(o).unwrap());
+        text.push('\n');
+    }
+    match &outf {
+        Some(p) => std::fs::write(p, text).expect("obs file"),
+        None => {
+            let stdout = std::io::stdout();
+            let mut lock = stdout.lock();
+            lock.write_all(text.as_bytes()).unwrap();
+        }
     }
     0
 }
